@@ -459,7 +459,19 @@ func (w *walker) stmt(s ast.Stmt) {
 				}
 			}
 		}
-		for _, r := range x.Rhs {
+		for i, r := range x.Rhs {
+			if ce, ok := r.(*ast.CallExpr); ok && i < len(x.Lhs) {
+				// make(chan T[, n]): the capacity of a channel is part of the blocking structure
+				if id, ok := ce.Fun.(*ast.Ident); ok && id.Name == "make" && len(ce.Args) >= 1 {
+					if _, isChan := ce.Args[0].(*ast.ChanType); isChan {
+						capacity := "0"
+						if len(ce.Args) >= 2 {
+							capacity = exprString(ce.Args[1])
+						}
+						w.add("MakeChan", exprString(x.Lhs[i]), capacity, r.Pos())
+					}
+				}
+			}
 			if fl, ok := r.(*ast.FuncLit); ok {
 				w.closure(fl, "assigned:"+exprString(x.Lhs[0]))
 			} else {
